@@ -3,7 +3,8 @@ from checks_path import *  # noqa
 from seq_common import run_seq, replay_seq
 
 PROPERTY = 'C03'
-PROPS = ['SalsaVerif.Props.C03']
+GEN = ['LogicVerify']
+PROPS = ['SalsaVerif.Props.C03', 'SalsaVerif.Props.GenLogicVerify', 'SalsaVerif.Props.C03Core3']
 EXPLANATION = ('Theorems about the event trace of the Lean engine model: every `exec q` appended by a fetch is justified (no memo, or a '
                'recorded dependency changed since the last validation), backdating keeps the stamp and shields readers, writing an unread '
                'input never re-executes. The model\'s WillExecute / DidValidateMemoizedValue sequences are compared for equality with real '
